@@ -53,11 +53,11 @@ def exact_num(x, want):
 def set_loglik(factors, den):
     """sum of count * ln(num/den); -inf if a factor with positive count is zero; None if undefined
     (zero count on a zero-probability read: 0 * -inf is not defined by the property)"""
+    if any(num == 0 and cnt == 0 for num, cnt in factors):
+        return None
     tot = 0.0
     for num, cnt in factors:
         if num == 0:
-            if cnt == 0:
-                return None
             return -math.inf
         tot += cnt * log_fraction(Fraction(num, den))
     return tot
@@ -115,12 +115,12 @@ def compare_struct(ck, s, o, mode, stats):
             "full": s["lo"] == 0 and s["hi"] == s["N"], "empty": s["lo"] == s["hi"]}
     stats["evals"] += 1
     if o["applied"] != s["work"]:
-        ck.violation("rearrangement", {"mode": mode, "state": {k: s[k] for k in ("P", "N", "A", "G", "idx", "lo", "hi", "work")}, "impl": o["applied"]},
+        ck.violation("rearrangement", {"mode": mode, "state": s, "impl": o["applied"]},
                      key=dict(base, site="jitutils.structural_change", variant="interval"))
     if "applied_none" in o:
         stats["evals"] += 1
         if o["applied_none"] != s["work"]:
-            ck.violation("rearrangement", {"mode": mode, "state": {k: s[k] for k in ("P", "N", "A", "G", "idx", "lo", "hi", "work")}, "impl": o["applied_none"]},
+            ck.violation("rearrangement", {"mode": mode, "state": s, "impl": o["applied_none"]},
                          key=dict(base, site="jitutils.structural_change", variant="interval-none"))
     if not o["input_unchanged"]:
         # not a clause of C04 by itself (wrong values that follow from it are reported below)
@@ -128,11 +128,11 @@ def compare_struct(ck, s, o, mode, stats):
     for i, num in enumerate(s["nums"]):
         stats["evals"] += 2
         if not exact_num(o["struct"][i], num):
-            ck.violation("structural-numerator", {"mode": mode, "state": {k: s[k] for k in ("P", "N", "A", "G", "idx", "lo", "hi", "work")},
+            ck.violation("structural-numerator", {"mode": mode, "state": s,
                                                   "read_index": i, "impl_times_den": o["struct"][i], "model_num": num},
                          key=dict(base, site="assemble.likelihood.log_likelihood_structural_change", variant="single-read"))
         if not exact_num(o["direct"][i], num):
-            ck.violation("mixture-numerator", {"mode": mode, "state": {k: s[k] for k in ("P", "N", "A", "work")},
+            ck.violation("mixture-numerator", {"mode": mode, "state": s,
                                                "read_index": i, "impl_times_den": o["direct"][i], "model_num": num},
                          key=dict(base, site=SITE["ll"], variant="single-read-rearranged"))
     counts = [(i % 3) + 1 for i in range(len(s["nums"]))]
@@ -148,7 +148,7 @@ def compare_struct(ck, s, o, mode, stats):
         if not close_ll(o[nm], want):
             site = ("assemble.likelihood.log_likelihood_structural_change_cached" if nm.startswith("c_")
                     else "assemble.likelihood.log_likelihood_structural_change" if "struct" in nm else SITE["ll"])
-            ck.violation("likelihood-value", {"mode": mode, "state": {k: s[k] for k in ("P", "N", "A", "G", "idx", "lo", "hi", "work")},
+            ck.violation("likelihood-value", {"mode": mode, "state": s,
                                               "fn": nm, "impl": o[nm], "model": want},
                          key=dict(base, site=site, variant=nm))
 
@@ -174,7 +174,6 @@ def replay_one(ck, path):
     if not s or "G" not in s:
         print("nothing to replay in %s (kind=%s)" % (path, rec.get("kind")))
         sys.exit(2)
-    print("replaying is supported for states with their model expectation; re-run the check to regenerate them")
     op = "struct" if "idx" in s and "nums" in s else "mix" if "rds" in s and "f" in s else None
     if op is None:
         print("violation file does not carry the full model state; re-run ./check C04")
@@ -225,6 +224,17 @@ def main():
                 ck.machinery_failure("mutant spec %s not killed (expected %s violated, got %s)" % (cfg, inv, m.violated))
             killed += 1
         ck.note("mutant_specs_killed", killed)
+        # every action of both state machines must actually be taken (TLC -coverage on the small instance set)
+        cov = {}
+        for cfg, acts in (("MC_tiny.cfg", ["MIncG", "MIncCell", "MIncCount", "MAddRead"]),
+                          ("Struct_tiny.cfg", ["SIncG", "SIncIdx", "SIncHi", "SIncLo", "SBegin", "SColumn", "SFinish"])):
+            c = tlc.run(SPEC, "Likelihood", cfg, coverage=True, name="Likelihood-coverage")
+            for a in acts:
+                n = c.coverage.get(a, (0, 0))
+                cov[a] = {"distinct": min(n), "generated": max(n)}
+                if max(n) == 0:
+                    ck.machinery_failure("action %s never taken in %s" % (a, cfg))
+        ck.note("action_coverage_small_instances", cov)
     except tlc.TLCError as e:
         ck.machinery_failure(str(e))
     if not mix or not st:
@@ -256,7 +266,7 @@ def main():
 
     # ---- code -> spec: random tensors --------------------------------------------
     n_inst = 240 if tier == "quick" else 3000
-    batches = 4 if tier == "quick" else 12
+    batches = 2 if tier == "quick" else 12
     res = pool.map_tasks("impl.c04", [{"op": "random_trace", "n": n_inst // batches, "seed": ck.seed * 1000 + b} for b in range(batches)],
                          mode="jit", warm_first=False)
     first_ev = None
@@ -313,24 +323,35 @@ def main():
         ck.nontrivial += sum(1 for e in ev if e["op"] in ("struct", "apply") and e["lo"] < e["hi"])
     if first_ev:
         ck.sample({"kind": "recorded-trace-prefix", "events": first_ev[:3]})
-        beg = first_ev[0]
-        rd = dict(next(e for e in first_ev if e["op"] == "read"))
-        rd["num"] += 1
-        ap = dict(next(e for e in first_ev if e["op"] == "apply"))
-        ap["out"] = [list(x) for x in ap["out"]]
-        ap["out"][0][0] = (ap["out"][0][0] + 1) % 4
-        su = dict(next(e for e in first_ev if e["op"] == "struct"))
-        su["num"] += 3
-        bad = [beg, rd, ap, su, {"op": "end"}]
-        wanted = ["MixtureNumeratorExact", "ApplyIsRearranged", "StructuralEqualsApplied"]
-        tfb = os.path.join(ck.wd, "trace-corrupt.json")
+    # binding demonstration, built from the MODEL's own values (independent of the implementation):
+    # the faithful trace must be accepted line by line, each corrupted field rejected for its own clause
+    import itertools
+    sd = next(s for s in st if s["idx"] != list(range(1, s["P"] + 1)) and 0 < s["hi"] - s["lo"] < s["N"])
+    reads = [list(c) for c in itertools.product(*[range(-1, a) for a in sd["A"]])]
+    k = len(reads) // 2
+    good = [{"op": "begin", "P": sd["P"], "N": sd["N"], "A": sd["A"], "G": sd["G"]},
+            {"op": "read", "cells": reads[k], "count": 2, "num": sd["base"][k], "frac6": 0},
+            {"op": "apply", "idx": sd["idx"], "lo": sd["lo"], "hi": sd["hi"], "out": sd["work"]},
+            {"op": "struct", "idx": sd["idx"], "lo": sd["lo"], "hi": sd["hi"], "cells": reads[k], "num": sd["nums"][k], "frac6": 0},
+            {"op": "end"}]
+    bad = json.loads(json.dumps(good))
+    bad[1]["num"] += 1
+    bad[2]["out"][0][0] = (bad[2]["out"][0][0] + 1) % 4
+    bad[3]["num"] += 3
+    bad.insert(2, dict(bad[1], num=good[1]["num"], frac6=40))
+    wanted = ["MixtureNumeratorExact", "NumeratorIsIntegral", "ApplyIsRearranged", "StructuralEqualsApplied"]
+    for name, evs, want in (("trace-faithful.json", good, []), ("trace-corrupt.json", bad, wanted)):
+        tfb = os.path.join(ck.wd, name)
         with open(tfb, "w") as fh:
-            json.dump(bad, fh)
-        t = tlc.run(SPEC, "TraceLikelihood", "Trace.cfg", workers=1, extra_env={"TRACE_FILE": tfb}, name="TraceLikelihood-corrupt")
+            json.dump(evs, fh)
+        try:
+            t = tlc.run(SPEC, "TraceLikelihood", "Trace.cfg", workers=1, extra_env={"TRACE_FILE": tfb}, name="TraceLikelihood-demo")
+        except tlc.TLCError as e:
+            ck.machinery_failure(str(e))
         got = [p["clause"] for p in t.printed if "reject" in p]
-        if got != wanted:
-            ck.machinery_failure("corrupted trace: expected rejections %s, got %s" % (wanted, got))
-        ck.note("corrupted_traces_rejected", len(got))
+        if got != want:
+            ck.machinery_failure("%s: expected rejections %s, got %s" % (name, want, got))
+    ck.note("corrupted_traces_rejected", len(wanted))
 
     # ---- arbitrary float tensors: the TLC-checked theorems as code-vs-code relations ----
     nf = 200 if tier == "quick" else 4000
